@@ -6,7 +6,6 @@ package main
 import (
 	"fmt"
 	"io"
-	"regexp"
 	"runtime"
 	"strconv"
 	"strings"
@@ -92,7 +91,6 @@ func (c *taskCtx) operand(op *Op) (any, string, bool) {
 	return s.res, s.origin + "|result", true
 }
 
-var libFrameRe = regexp.MustCompile(`go-cvss`)
 
 // guard runs f and converts a panic into a canonical "PANIC:" result naming the
 // top library frame.
@@ -105,7 +103,7 @@ func guard(f func() string) (out string) {
 			top := "?"
 			for {
 				fr, more := frames.Next()
-				if libFrameRe.MatchString(fr.Function) && !strings.Contains(fr.Function, "simrt") {
+				if strings.Contains(fr.Function, "go-cvss") && !strings.Contains(fr.Function, "simrt") {
 					top = fr.Function
 					break
 				}
@@ -155,7 +153,6 @@ func renderDecode(s *slotObj) string {
 	return sb.String()
 }
 
-var addrRe = regexp.MustCompile(`0xc[0-9a-f]{6,}`)
 
 // renderExport reads what an export returned.
 func renderExport(rd io.Reader, err error) string {
@@ -276,11 +273,10 @@ func (c *taskCtx) opKey(op *Op) (string, bool) {
 		if r == nil {
 			return "", false
 		}
-		f := ""
+		// the same operation = same template, same path, same reader script
+		f := "|" + op.Via
 		if op.Via == "rd" && op.Fault != nil {
-			if op.Fault.willFail() {
-				f = fmt.Sprintf("|fail@%d/%d/%v/nil=%v", op.Fault.ErrAt, op.Fault.ErrKind, op.Fault.ErrWithData, op.Fault.Nil)
-			}
+			f += fmt.Sprintf("|%+v", *op.Fault)
 		}
 		return "exp|" + strconv.Quote(op.Tmpl) + f + "|" + r.origin, true
 	case "lkp":
@@ -289,7 +285,31 @@ func (c *taskCtx) opKey(op *Op) (string, bool) {
 	return "", false
 }
 
-func maskAddrs(s string) string { return addrRe.ReplaceAllString(s, "0xADDR") }
+// maskAddrs replaces heap addresses (0xc000...) by a constant.  Hand-written: a
+// regexp would go through a sync.Pool and tasks call this after every operation.
+func maskAddrs(s string) string {
+	i := strings.Index(s, "0xc")
+	if i < 0 {
+		return s
+	}
+	var sb strings.Builder
+	for i >= 0 {
+		j := i + 3
+		for j < len(s) && (s[j] >= '0' && s[j] <= '9' || s[j] >= 'a' && s[j] <= 'f') {
+			j++
+		}
+		if j-i >= 9 {
+			sb.WriteString(s[:i])
+			sb.WriteString("0xADDR")
+		} else {
+			sb.WriteString(s[:j])
+		}
+		s = s[j:]
+		i = strings.Index(s, "0xc")
+	}
+	sb.WriteString(s)
+	return sb.String()
+}
 
 func clip(s string, n int) string {
 	if len(s) <= n {
